@@ -25,8 +25,10 @@ LEVEL_TEXT = (
     "three alternatives for declared weights with zeros in every position x minimum-depth tables x recursive sets"
     " x context depths x heuristic targets: the effective weights keep declared zeros at zero and are never all "
     "zero while a positive-weight alternative is offered (choice_weighted would fall through to the first "
-    "alternative whatever its weight); every definition of the weight list that reaches the call is aligned; (R6)"
-    " rules are disjoint - on a model grammar with a production that has two abstract bases the interpreted "
+    "alternative whatever its weight); every definition of the weight list that reaches the call is aligned - "
+    "decided by the spelling where it is the plain element-wise comprehension, and otherwise by the model: the "
+    "chooser interpreted on permuted offers must leave every alternative with the effective weight it had; (R6) "
+    "rules are disjoint - on a model grammar with a production that has two abstract bases the interpreted "
     "registration lists it under exactly one rule, so per-rule normalisation is well defined; (R4) the class "
     "decorators that write grammar metadata (weight, abstract) are interpreted in both orders on a model class: "
     "both entries are present afterwards. Floating-point rounding of the ratios is not decided."
@@ -359,7 +361,8 @@ def rule_r3(ctx: Ctx) -> None:
     ctx.floor("C19.R3", n, 3, "weighted-choice call sites")
 
 
-def _weighted_chooser_call(ctx: Ctx, f: FunctionInfo, order: tuple, declared: dict, dist: dict, rec: tuple, depth: int, deepest: int):
+def _weighted_chooser_call(ctx: Ctx, f: FunctionInfo, order: tuple, declared: dict, dist: dict, rec: tuple, depth: int, deepest: int, state: Optional[dict] = None,
+                           keep: Optional[dict] = None):
     """interpret the weight-aware chooser f on the alternatives x<i> in the given order; returns (options, effective weights) as handed to
     choice_weighted, ("raise",) when the chooser rejects the offer, or a string saying why it was not followed"""
     from ..modelinterp import Budget, Interp, Obj, Sym, UNKNOWN
@@ -395,10 +398,17 @@ def _weighted_chooser_call(ctx: Ctx, f: FunctionInfo, order: tuple, declared: di
            ctx_p: Obj("LocalSynthesisContext", {"depth": depth, "nodes": 1, "expansions": 0, "dependent_values": {}})}
     for p_ in ps:
         env.setdefault(p_, Sym(p_))
+    # the decider's own state: what its constructor creates (tables, caches), or what an earlier call on the same object left behind
+    from .choosermodel import _ctor_fields
+    for k_, v_ in (state if state is not None else {"self." + a_: b_ for a_, b_ in _ctor_fields(prog, f.cls, call_model).items()}).items():
+        env.setdefault(k_, v_)
     try:
         runs = it.run(f, env)
     except Budget:
         return "too many interpretations"
+    if keep is not None and len(runs) == 1:
+        keep.clear()
+        keep.update({k_: v_ for k_, v_ in it.envs[0].items() if k_.startswith("self.") and k_ not in ("self.grammar", "self.random", "self.max_depth")})
     if len(runs) != 1 or runs[0][2]:
         return runs[0][2][0] if runs and runs[0][2] else f"{len(runs)} interpretations (open condition at {it.fork_sites[:1]})"
     if any(e.kind == "raise" for e in runs[0][0]) or not captured:
@@ -437,6 +447,25 @@ def chooser_alignment(ctx: Ctx, f: FunctionInfo):
                 k = next(t for t in base if base[t] != now.get(t))
                 return False, (f"offered in the order {list(order)} the alternative {k} gets the effective weight {now.get(k)}, offered as ['x1', 'x2', 'x3'] it got "
                                f"{base[k]}: the weights are not paired with the alternatives they belong to")
+    # ... and a second offer to the same decider object, shorter than the first (the retry after a production failed to synthesise): whatever the
+    # decider remembered from the first call must not be paired with the new offer
+    for dist, rec, depth, deepest in (({"x1": 1, "x2": 2, "x3": 3}, ("x2",), 0, 5),):
+        kept: dict = {}
+        first = _weighted_chooser_call(ctx, f, ("x1", "x2", "x3"), declared, dist, rec, depth, deepest, keep=kept)
+        if isinstance(first, str) or first == ("raise",):
+            continue
+        base = dict(zip(*first))
+        second = _weighted_chooser_call(ctx, f, ("x2", "x3"), declared, dist, rec, depth, deepest, state=dict(kept))
+        if isinstance(second, str):
+            und = und or second
+            continue
+        if second == ("raise",):
+            continue
+        now = dict(zip(*second))
+        if len(second[0]) != len(second[1]) or any(now[t] != base[t] for t in now):
+            k = next((t for t in now if now[t] != base.get(t)), second[0][0])
+            return False, (f"offered ['x2', 'x3'] after ['x1', 'x2', 'x3'] on the same decider, the alternative {k} gets the effective weight {now.get(k)} (it had {base.get(k)}): "
+                           f"what the decider remembered from the first offer is paired with the second one")
     return (None, und) if und else (True, "")
 
 
